@@ -481,3 +481,97 @@ def loop_heavy_family(seed, count, lits=('foo', 'bar', '--baz', '--quux'), refs=
             e = Many(e)
         out.append(mk('cmd', e))
     return out
+
+
+# ---------------------------------------------------------------------------------------------
+# twins: one subtree and a slightly varied copy of it in one grammar
+
+def _paths(n, prefix=()):
+    yield prefix, n
+    k = n[0]
+    if k in ('seq', 'alt', 'fb', 'sub'):
+        for i, c in enumerate(n[1]):
+            yield from _paths(c, prefix + (i,))
+    elif k in ('opt', 'many', 'descr'):
+        yield from _paths(n[1], prefix + (0,))
+
+
+def _replace(n, path, new):
+    if not path:
+        return new
+    k = n[0]
+    if k in ('seq', 'alt', 'fb', 'sub'):
+        cs = list(n[1])
+        cs[path[0]] = _replace(cs[path[0]], path[1:], new)
+        return (k, tuple(cs))
+    if k in ('opt', 'many'):
+        return (k, _replace(n[1], path[1:], new))
+    if k == 'descr':
+        return (k, _replace(n[1], path[1:], new), n[2])
+    raise ValueError(n)
+
+
+def vary(r, t):
+    """one small change of t: || <-> |, order of alternatives, a description added / changed / removed, [x] <-> x"""
+    nodes = list(_paths(t))
+    r.shuffle(nodes)
+    for path, n in nodes:
+        k = n[0]
+        choice = r.random()
+        if k == 'fb' and choice < 0.6:
+            return _replace(t, path, ('alt', n[1]))
+        if k == 'alt' and choice < 0.4:
+            return _replace(t, path, ('fb', n[1]))
+        if k in ('alt', 'fb') and choice < 0.8:
+            cs = list(n[1])
+            cs.reverse()
+            return _replace(t, path, (k, tuple(cs)))
+        if k == 'lit' and choice < 0.5:
+            in_sub = any(_node_at(t, path[:i])[0] == 'sub' for i in range(len(path)))
+            if not in_sub:
+                return _replace(t, path, ('lit', n[1], None if n[2] else 'other ' + n[1].strip('-=')))
+        if k == 'opt' and choice < 0.3 and not path[:-1] == () and _node_at(t, path[:-1])[0] != 'sub':
+            return _replace(t, path, n[1])
+    return t
+
+
+def _node_at(t, path):
+    n = t
+    for i in path:
+        k = n[0]
+        n = n[1][i] if k in ('seq', 'alt', 'fb', 'sub') else n[1]
+    return n
+
+
+def twin_family(seed, count, **kw):
+    """grammars that contain a random subtree twice, the second time with one small variation, at two places with
+    different continuations (two alternatives, two call variants, two definitions, one after the other)"""
+    out = []
+    kw.setdefault('max_depth', 3)
+    kw.setdefault('allow_builtin', False)
+    g = Gen(seed, **kw)
+    r = g.r
+    tries = 0
+    while len(out) < count and tries < count * 20:
+        tries += 1
+        g.defs = []
+        g.nd = 0
+        g.wordsafe = {}
+        t = g.word(2) if r.random() < 0.6 else g.expr(2, top=False)
+        t2 = vary(r, t)
+        if t2 == t and r.random() < 0.7:
+            continue
+        defs = list(g.defs)
+        shape = r.randrange(5)
+        if shape == 0:
+            e = mk('cmd', Alt(Seq(t, Lit('x')), Seq(Lit('-f'), t2, Lit('y'))), defs)
+        elif shape == 1:
+            e = {'command': 'cmd', 'variants': [Seq(t, Lit('x')), Seq(Lit('sub'), t2, Lit('y'))], 'defs': defs}
+        elif shape == 2:
+            e = mk('cmd', Alt(Seq(Ref('TP'), Lit('x')), Seq(Lit('-f'), Ref('TQ'), Lit('y'))), defs + [('TP', None, t), ('TQ', None, t2)])
+        elif shape == 3:
+            e = mk('cmd', Alt(Seq(t, Lit('x')), Seq(t2, Lit('y'))), defs)
+        else:
+            e = mk('cmd', Seq(t, t2, Lit('end')), defs)
+        out.append(e)
+    return out
